@@ -37,7 +37,17 @@ RECURSIVE ReLang(_,_)
 ReLang(items, m) == IF items = <<>> THEN {<<>>}
                     ELSE { w \in { a \o b : a \in ItemLang(Head(items), m), b \in ReLang(Tail(items), m) } : Len(w) <= m }
 \* every word of the regex that still fits, and one longer word if there is any (it triggers the length bound)
-ReWords(items, m) == ReLang(items, m)
+\* leading zero-width assertions (see FanIR.tla)
+IsWordCp(c) == c \in 48..57 \/ c \in 65..90 \/ c \in 97..122 \/ c = 95 \/ c \in {170, 181, 186} \/ (c >= 192 /\ c <= 591 /\ c \notin {215, 247})
+IsAssertion(it) == it.hi = 0 /\ it.lo > 0
+AssertionHolds(it, val) ==
+  CASE it.lo = 1 -> FALSE
+    [] it.lo = 2 -> val # <<>> /\ IsWordCp(val[1])
+    [] it.lo = 3 -> val = <<>> \/ ~IsWordCp(val[1])
+    [] OTHER -> TRUE
+ReWords(items, m) == IF items # <<>> /\ IsAssertion(items[1])
+                     THEN { w \in ReLang(Tail(items), m) : AssertionHolds(items[1], w) }
+                     ELSE ReLang(items, m)
 
 Init == /\ gi \in 1..Len(Gs)
         /\ stack = << [sym |-> Gs[gi].start, kids |-> <<>>, todo |-> << Gs[gi].rules[Gs[gi].start] >>] >>
